@@ -276,8 +276,8 @@ theorem chunks_ok (cs : List Nat) (hs : cs.Pairwise (· < ·)) :
     exact this
   exact List.Pairwise.sublist hsub hs
 
-theorem fmtClass_text (cap : Bool) (cs : List Nat) :
-    R (fmtClass (cfgPlain cap) cs) = 91 :: (((runs cs).flatMap runChunks).flatMap chunkText ++ [93]) := by
+theorem fmtClass_text (cap esc : Bool) (cs : List Nat) :
+    R (fmtClass (cfgPlain cap esc) cs) = 91 :: (((runs cs).flatMap runChunks).flatMap chunkText ++ [93]) := by
   have hb : R ((runs cs).flatMap fun r => if r.length ≤ 2 then r.flatMap escapeClassChar
       else escapeClassChar (r.headD 0) ++ Comp.hyphen false ++ escapeClassChar (r.getLastD 0)) =
       ((runs cs).flatMap runChunks).flatMap chunkText := by
@@ -330,9 +330,9 @@ theorem neg_match (h : Nat) (t : List Nat) (h94 : h ≠ 94) :
   · rfl
 
 /-- **one printed class is one `set` item**, read in one round of the parser loop -/
-theorem lex_class (cap : Bool) (cs : List Nat) (hne : cs ≠ []) (hs : cs.Pairwise (· < ·))
+theorem lex_class (cap esc : Bool) (cs : List Nat) (hne : cs ≠ []) (hs : cs.Pairwise (· < ·))
     (f : Nat) (rest : List Nat) (st : List Frame) (al co : List Pat) :
-    parseLoop false (f + 1) (R (fmtClass (cfgPlain cap) cs) ++ rest) st al co =
+    parseLoop false (f + 1) (R (fmtClass (cfgPlain cap esc) cs) ++ rest) st al co =
       parseLoop false f rest st al (Pat.set (classItems cs) false :: co) := by
   rw [fmtClass_text, classItems_chunks]
   generalize hck : (runs cs).flatMap runChunks = cks
